@@ -36,7 +36,7 @@ struct Replica {
   std::vector<KindReg> kind_regs; BSet kind_initial_union; bool kinds_tracked = true;
   // shm
   void *shm_addr = nullptr; size_t shm_len = 0; int shm_fd = -1; std::string shm_file; uint64_t shm_off = 0;
-  int loaded_from = 0;           // 0 synthetic, 1 xml corpus, 2 xml restart, 3 dup, 4 shm
+  int loaded_from = 0;           // 0 synthetic, 1 xml corpus, 2 xml restart, 3 dup, 4 shm, 5 bundled snapshot
 };
 
 struct Cfg {
@@ -85,6 +85,7 @@ bool ops_shm(World &w, const Op &o);
 bool ops_xmlfault(World &w, const Op &o);
 bool ops_snapshot(World &w, const Op &o);   // snap_load / snap_enum (C18)
 const char *snapshot_kind(size_t i);         // "linux" | "x86" | "x86+linux"
+int snapshot_load(hwloc_topology_t t, size_t index, unsigned comp, unsigned env, std::string *desc);   // load an intact bundled snapshot into a configured topology ("src snap")
 size_t snapshot_count();                    // bundled snapshots (sorted list; a function of the repository content only)
 // WF + printers + XML/synthetic exports + dup + helper battery on a temporary topology; WF class = <clause>.<tag>@<op>; *out = the dump taken
 void readonly_battery(World &w, hwloc_topology_t t, const char *own, const std::string &tag, const char *what, uint64_t sel, Dump *out = nullptr);
